@@ -92,6 +92,25 @@ def run_newer_names(tier, funcs, index, enums, res):
     res["bounds"] = "words %r: -newer / -anewer / -cnewer / -newerXY select (m,m) / (a,m) / (c,m) / (X,Y); near-misses select nothing" % c11.NEWER_WORDS
 
 
+def run_wiring(tier, funcs, index, enums, res):
+    import c06_wiring
+    r = c06_wiring.explore(funcs, index, enums)
+    res["functions_executed"].update(r.pop("functions_executed"))
+    for v in r.pop("violations"):
+        res["violations"].append({"key": "wiring | " + v["what"].split("(")[0].strip()[:60], "summary": "do_xargs with options %s: %s" % (v.get("options"), v["what"]), "replayer": "wiring_cli", "what": v["what"]})
+    for k, c in r.pop("unsupported").items():
+        res["unsupported"][k] = res["unsupported"].get(k, 0) + c
+    r["bound"] = "do_xargs: every subset of -n -L -s -I -d -0 -x -r -a, symbolic values and positions"
+    r["inputs_covered"] = r.pop("checks")
+    res["runs"].append(r)
+    t = ("do_xargs from MIR with clap as a model (symbolic option presence, values, command-line positions): Options, normalize_options, LimiterCollection::{new,add}, the limiter "
+         "constructors, CommandBuilderOptions::new, reader construction; process_input is a recorder")
+    b = ("do_xargs wiring: every subset of {-n, -L, -s, -I, -d, -0, -x, -r, -a} with a command given; -n/-L 1..9, -s 100..100000, -d 0..255, positions distinct: the system command-line "
+         "limit is installed exactly once in every configuration, -s/-n/-L become limiters with exactly their values, the byte-delimited reader is selected iff -d/-0/-I, -x/-r reach process_input")
+    res["target"] = (res.get("target") + "; " if res.get("target") else "") + t
+    res["bounds"] = (res.get("bounds") + "; " if res.get("bounds") else "") + b
+
+
 def run_batching(tier, funcs, index, enums, res):
     import c04_batching
     res["target"] = "CommandBuilderOptions::new + process_input with the real limiter chain; symbolic argument lengths, limits, line structure and child outcomes"
@@ -315,7 +334,7 @@ def run_print0(tier, funcs, index, enums, res):
                      "<PrintDelimiter as Display>::fmt over a scripted walkdir tree with symbolic names; xargs: ByteDelimitedArgumentReader::next on exactly the bytes written, "
                      "process_input, CommandBuilderOptions::new, CommandBuilder::{new,add_arg,execute} with std::process::Command as a recorder")
     shapes = list(c7.SHAPES) + (list(c7.BIG_SHAPES) if tier == "thorough" else ["deep", "wide"])
-    for mode in ("print0", "print", "default"):
+    for mode in ("print0", "print0_I", "print", "default"):
         for sh in shapes:
             r = c7.explore(sh, funcs, index, enums, mode)
             res["functions_executed"].update(r.pop("functions_executed"))
@@ -328,7 +347,7 @@ def run_print0(tier, funcs, index, enums, res):
             r["inputs_covered"] = r.pop("checks")
             res["runs"].append(r)
     res["bounds"] = ("starting point in %r; tree shapes %s (parent, name length) in pre-order and -depth post-order; every name byte symbolic over 1..127 without '/' "
-                     "(names '.' and '..' excluded); expressions -print0, -print and none; xargs -0 without size limits (C04's), one command 'cmd fixed'. Names with bytes >= 0x80 "
+                     "(names '.' and '..' excluded); expressions -print0, -print and none; xargs -0 without size limits (C04's) with the command 'cmd fixed', and xargs -0 -I{} with 'cmd x{}y {}' (one run per path, the path substituted unmodified). Names with bytes >= 0x80 "
                      "(multi-byte UTF-8) go through the same code under std's contract that the lossy conversions are the identity on valid UTF-8 - not checked here." % (
                          c7.STARTS, {k: c7.SHAPES_ALL[k] for k in shapes}))
 
@@ -390,8 +409,12 @@ def main():
         run_parser(tier, funcs, index, enums, res)
         if prop == "C11":
             run_operands(tier, funcs, index, enums, res)
+    elif prop == "C06":
+        run_wiring(tier, funcs, index, enums, res)
     elif prop in ("C04", "C19"):
         run_batching(tier, funcs, index, enums, res)
+        if prop == "C04":
+            run_wiring(tier, funcs, index, enums, res)
         if prop == "C19":
             run_classify(tier, funcs, index, enums, res)
     elif prop in ("C18", "C02"):
@@ -426,6 +449,7 @@ def main():
         run_exec(prop, tier, funcs, index, enums, res)
     elif prop == "C05":
         run_readers(tier, funcs, index, enums, res)
+        run_wiring(tier, funcs, index, enums, res)
     elif prop == "C12":
         run_glob(tier, funcs, index, enums, res)
     elif prop == "C16":
